@@ -91,6 +91,10 @@ def arbBytes (g : G) : List Nat × G :=
 /-- UTF-8 encodings of characters of every length class and with the rare lead / continuation bytes -/
 def charPool : List (List Nat) :=
   [[97], [98], [32], [48], [57], [45], [44], [10], [127],
+   -- every ASCII whitespace byte (`trim*`: 9 10 11 12 13 32), Unicode whitespace that `trim_ascii*` keeps (U+0085, U+2003),
+   -- '+', more digits, and the words of `parse_bool` as one "character" each so that they occur whole
+   [9], [11], [12], [13], [0xC2, 0x85], [0xE2, 0x80, 0x83], [43], [49], [50], [53],
+   [116, 114, 117, 101], [102, 97, 108, 115, 101],
    [0xC2, 0x80], [0xC3, 0xB1], [0xC2, 0xBF], [0xDF, 0xBF],
    [0xE0, 0xA0, 0x80], [0xE0, 0xB8, 0xAA], [0xE2, 0x82, 0xAC], [0xE4, 0xB8, 0xAA], [0xED, 0x9F, 0xBF],
    [0xEE, 0x80, 0x80], [0xEF, 0xBB, 0xBF], [0xEF, 0xBF, 0xBD], [0xEF, 0xBF, 0xBF],
